@@ -16,7 +16,7 @@ CLAIMED = {
     design="2/C17"),
  "C01": dict(
     text="Proof of the leaf operations the reference semantics bottoms out in and of the call/return protocol. Verus (unbounded, extracted every run): 21 Stack/StackFrame primitives against a Seq<Value> view, index_from, Deref; call_function_with_upvars (exact / partial / over-application layouts), the PartialApplication arm of do_call, the return statements of execute_ and ExecuteContext::exit_scope; binop/binop_int/binop_byte/binop_bool (operand order, failure leaves the stack untouched); interpreter arms Pop, Slide, Push, PushInt/Byte/Float, GetOffset, Split, ConstructVariant, ConstructRecord, ConstructArray, MakeClosure, TailCall (run-time effect = static effect; constructed value has exactly the top args values as fields in order); Instruction::adjust against the documented stack-effect table, ProgramCounter index safety, the && and || blocks of compile_primitive (short-circuit layout); core::Binder::into_expr (bindings of a record update / constructor application become nested lets in binding order) and the base case of the match compilation (the first matching equation wins). Kani (full domain): the 18 arithmetic/comparison interpreter arms (expression text parsed from execute_ every run) against Z / IEEE and the operator-name -> opcode table. Partial: translation to core and compile_ are not under contract.",
-    note="Trusted: env.rs stand-ins and rewrite rules listed in evidence; MultiplyInt/DivideInt references are core's checked_mul and the language's `/`; for arms/blocks/tails the wrapper signature is mine (free variables become parameters). Translator, PatternTranslator, Compiler::compile_ (other than the two blocks), the remaining interpreter arms, rename, implicits are unverified.",
+    note="Trusted: env.rs stand-ins and rewrite rules listed in evidence; MultiplyInt/DivideInt references are core's checked_mul and the language's `/`; for arms/blocks/tails the wrapper signature is mine (free variables become parameters). Translator and PatternTranslator (other than Binder::into_expr and the no-variables base case), Compiler::compile_ (other than the two blocks), the remaining interpreter arms, rename, implicits are unverified.",
     technique="Verus contracts on extracted bodies + generated Kani harnesses over the interpreter arm table",
     design="2/C01"),
  "C06": dict(
@@ -25,7 +25,7 @@ CLAIMED = {
     technique="generated Kani harnesses (one per primitive!() table entry and per arithmetic interpreter arm) + Verus contracts on extracted bodies",
     design="2/C06"),
  "C07": dict(
-    text="Proof of the three limit computations: Kani (symbolic counters, full usize domain) on the real Gc::alloc_owned (accounted memory never exceeds the limit; failure leaves the heap untouched) and check_collect; Verus on the real add_new_frame (frame entered iff len + max_stack_size <= limit), enter_scope / enter_scope_excess, on the per-instruction step of static stack accounting (adjust/emit/increase_stack/emit_call), on the tail flag of the && / || operands, on every TailCall arm of the interpreter (frame list shrinks and the new call reuses the returning function's slot: constant stack) on ExecuteContext::exit_scope, and on the head of the frame loop of OwnedContext::execute (every pass -- call, tail call, return -- polls the interrupt flag before dispatching). Also: a spawned thread inherits its spawner's memory limit (Gc::new_child_gc) and stack limit (Thread::new_thread). Found and repaired the header-not-counted defect and the unlimited stack of spawned threads.",
+    text="Proof of the three limit computations: Kani (symbolic counters, full usize domain) on the real Gc::alloc_owned (accounted memory never exceeds the limit; failure leaves the heap untouched) and check_collect; Verus on the real add_new_frame (frame entered iff len + max_stack_size <= limit), enter_scope / enter_scope_excess, on the per-instruction step of static stack accounting (adjust/emit/increase_stack/emit_call), on the tail flag of the && / || operands, on every TailCall arm of the interpreter (frame list shrinks and the new call reuses the returning function's slot: constant stack) on ExecuteContext::exit_scope, and on the head of the frame loop of OwnedContext::execute (every pass -- call, tail call, return -- polls the interrupt flag before dispatching), on Thread::interrupted (a pure poll: it does not write the flag) and on the statement that compiles a match alternative's body (inherits the tail flag). Also: a spawned thread inherits its spawner's memory limit (Gc::new_child_gc) and stack limit (Thread::new_thread). Found and repaired the header-not-counted defect and the unlimited stack of spawned threads.",
     note="Trusted: get_type_info stubbed; allocated_memory <= isize::MAX; no u32 wrap in len+max_stack_size; operand_fits; the interrupt flag is a pure read for one loop iteration and the rest of the loop body is not in the extracted head. That one pass of the loop takes bounded time (extern functions), native-stack depth and the induction over compile_ are not under contract.",
     technique="Kani harnesses on the real allocator + Verus contracts on extracted bodies",
     design="2/C07"),
